@@ -244,8 +244,9 @@ pub(crate) fn find_quad_max_curvature(src: &[Point; 3]) -> NormalizedF32 {
         return NormalizedF32::ONE;
     }
 
+    // numer and denom can both overflow to infinity for huge control points: NaN, not a panic.
     let t = numer / denom;
-    NormalizedF32::new(t).unwrap()
+    NormalizedF32::new_clamped(t)
 }
 
 pub(crate) fn eval_quad_at(src: &[Point; 3], t: NormalizedF32) -> Point {
